@@ -267,7 +267,10 @@ func setAuths(api reflect.Value) {
 			ev := reflect.Zero(errT)
 			pv := reflect.Zero(t.Out(0))
 			if err != nil {
+				// a refusal may still name whom it refused (a known but revoked account, a token without the scopes): the
+				// error decides, the scheme has not authenticated
 				ev = reflect.ValueOf(&err).Elem()
+				pv = principalOf(t.Out(0), "refused:"+field)
 			} else {
 				pv = principalOf(t.Out(0), name)
 			}
